@@ -192,6 +192,33 @@ def run_family(prop, tier, seed, driver, cfg, relevant, extra_oracle=None):
                                                                 "op": gw.op_wire(hist[j])[:200]},
                         "model": str(proj(mo) if mo else mline)[:300], "impl": str(proj(io) if io else iline)[:300]})
             res.traces_validated = len(cases) - len(bad_hist)
+            # a disagreement is not by itself a violation: search around it for a concrete failing input
+            if res.corr_diffs and not res.oracle_failures and cfg.get("search_suffixes"):
+                tried = 0
+                for d in res.corr_diffs[:8]:
+                    name = d["case"]["case"]
+                    case = next(c for c in cases if c[4] == name)
+                    version, kind, persist, hist, _ = case
+                    j = d["case"]["op_index"]
+                    for suffix in cfg["search_suffixes"]:
+                        h2 = list(hist[: j + 1]) + list(suffix(version, hist[: j + 1]))
+                        tried += 1
+                        try:
+                            obs2, _ = gw.run_history(h2, version, kind, persist)
+                            fails2 = [f for f in gw_spec.judge(h2, obs2, version, kind, persist) if f["prop"] == prop]
+                        except Exception:  # noqa: BLE001
+                            fails2 = []
+                        if fails2:
+                            f = fails2[0]
+                            small = shrink(prop, version, kind, persist, h2[: f["at"] + 1], f["key"])
+                            res.oracle_failures.append({
+                                "key": f["key"], "what": f["what"][:300] + " (found by searching around a model/code disagreement)",
+                                "replay": {"version": version, "kind": kind, "persist": persist,
+                                           "hist": [encode_op(o) for o in small], "case": name + "+search"}})
+                            break
+                    if res.oracle_failures:
+                        break
+                res.extra["search_histories_tried"] = tried
     for case, (i, impl_lines, _) in list(zip(cases, results))[:3]:
         res.sample({"version": case[0], "kind": case[1], "persist": case[2],
                     "ops": [gw.op_wire(o)[:80] for o in case[3][:6]],
